@@ -159,6 +159,10 @@ func (w *World) builderFor(fn *ssa.Function) *builder {
 
 // ExprOf returns the origin expression of v in terms of its enclosing function's parameters.
 func (w *World) ExprOf(v ssa.Value) *Expr {
+	if !w.hooked {
+		w.hooked = true
+		w.installHooks()
+	}
 	if v == nil {
 		return &Expr{Op: "unknown", Name: "nil"}
 	}
@@ -475,8 +479,37 @@ func fieldOf(base *Expr, name string) *Expr {
 		return mkPhi(alts)
 	case "zero":
 		return &Expr{Op: "zero", Name: base.Name + "." + name}
+	case "global":
+		// a field of a package-level descriptor struct (handed to a method by value): what its initialiser gives it
+		if globalFieldHook != nil {
+			if v := globalFieldHook(base, name); v != nil {
+				return v
+			}
+		}
 	}
 	return &Expr{Op: "field", Name: name, Args: []*Expr{base}}
+}
+
+// globalFieldHook is installed by the World in use (one per process at a time).
+var globalFieldHook func(base *Expr, name string) *Expr
+
+func (w *World) installHooks() {
+	globalFieldHook = func(base *Expr, name string) *Expr {
+		g, ok := base.V.(*ssa.Global)
+		if !ok {
+			return nil
+		}
+		st, ok := deref(g.Type()).Underlying().(*types.Struct)
+		if !ok {
+			return nil
+		}
+		for i := 0; i < st.NumFields(); i++ {
+			if st.Field(i).Name() == name {
+				return w.initOnlyField(g, []int{i})
+			}
+		}
+		return nil
+	}
 }
 
 func isNumeric(t types.Type) bool {
@@ -573,6 +606,13 @@ func (b *builder) load(u *ssa.UnOp) *Expr {
 		return &Expr{Op: "unknown", Name: "load-foreign-alloc"}
 	case *ssa.Global:
 		e := &Expr{Op: "global", Name: globalName(r), V: r}
+		// a field of a package-level struct that is assigned only by its initialiser (a descriptor such as
+		// {prefix: X, keyFor: F}) is the value the initialiser gives it
+		if len(path) > 0 {
+			if v := b.w.initOnlyField(r, path); v != nil {
+				return v
+			}
+		}
 		return projectPath(e, r.Type(), path)
 	case *ssa.FreeVar:
 		e := &Expr{Op: "free", Name: r.Name(), V: r}
@@ -1383,6 +1423,17 @@ func (w *World) expand(e *Expr, depth int, budget *int, keep func(*ssa.Function)
 		return e
 	}
 	*budget--
+	if e.Op == "call" && e.Callee == nil && e.Name == "dyn" && len(e.Args) > 0 && e.Args[0].Op == "func" && e.Args[0].Callee != nil {
+		// a call through a function value that turned out to be a plain function (a descriptor's field, an argument)
+		ne := *e
+		ne.str = ""
+		ne.Name = e.Args[0].Name
+		ne.Callee = w.unwrap(e.Args[0].Callee)
+		ne.Args = e.Args[1:]
+		if ne.Callee != nil && w.inSet[ne.Callee] {
+			return w.expand(&ne, depth, budget, keep)
+		}
+	}
 	if e.Op == "call" && e.Callee == nil && e.Name == "dyn" && len(e.Args) > 0 && e.Args[0].Op == "closure" && e.Args[0].Callee != nil && depth > 0 {
 		// a call of a closure that was handed in as an argument (known after instantiation): its body, with the
 		// call's arguments for its parameters; captured variables stay symbolic
@@ -2102,4 +2153,68 @@ func (rd *reachDefs) cellCounter(a ssa.Value, path []int) *Expr {
 		pol = "false"
 	}
 	return &Expr{Op: "counter", Name: pol, Args: []*Expr{rd.b.expr(iff.Cond)}}
+}
+
+// initOnlyField: the value the package initialiser stores into field `path` of global g, when that is the only
+// store to g (or any part of it) in the whole in-scope program. nil otherwise.
+func (w *World) initOnlyField(g *ssa.Global, path []int) *Expr {
+	k := [2]any{g, pathKey(path)}
+	if w.initFields == nil {
+		w.initFields = map[[2]any]*Expr{}
+	}
+	if e, ok := w.initFields[k]; ok {
+		return e
+	}
+	w.initFields[k] = nil
+	if g.Pkg == nil {
+		return nil
+	}
+	initFn := g.Pkg.Func("init")
+	if initFn == nil {
+		return nil
+	}
+	// any write outside the initialiser disqualifies the global
+	for _, f := range w.Funcs {
+		if f == initFn || f.Pkg != g.Pkg && !w.inSet[f] {
+			continue
+		}
+		for _, b := range f.Blocks {
+			for _, in := range b.Instrs {
+				if st, ok := in.(*ssa.Store); ok {
+					if root, _ := addrPath(st.Addr); root == ssa.Value(g) {
+						return nil
+					}
+				}
+			}
+		}
+	}
+	var val ssa.Value
+	n := 0
+	for _, b := range initFn.Blocks {
+		for _, in := range b.Instrs {
+			st, ok := in.(*ssa.Store)
+			if !ok {
+				continue
+			}
+			root, p := addrPath(st.Addr)
+			if root != ssa.Value(g) {
+				continue
+			}
+			if pathKey(p) == pathKey(path) {
+				n++
+				val = st.Val
+			} else if hasPrefix(path, p) || hasPrefix(p, path) {
+				return nil // written as part of a larger / smaller cell: not handled
+			}
+		}
+	}
+	if n != 1 {
+		return nil
+	}
+	e := w.builderFor(initFn).expr(val)
+	if opaque(e) {
+		return nil
+	}
+	w.initFields[k] = e
+	return e
 }
